@@ -9,8 +9,10 @@ CFG = {
         'bmtree.PathsOf/sorted': 'bmtree.PathsOf(sorted keys, dedup=true)',
         'bmtree.PathsOf/runs': 'bmtree.PathsOf (long key list given as alphabet + runs, result run-length encoded)',
         'bmtree.PathsOf/runs/held': 'bmtree.PathsOf (two long lists, both results read after the second call)',
+        'bmtree.PathsOf/append': 'bmtree.PathsOf (dedup call, second call, caller appends to the first result, both read)',
+        'bitmap.FromStr32/big': 'bitmap.FromStr32 on a 32..40 MB string (pattern^n + tail)',
         'bmtree.PathsOf/held': 'bmtree.PathsOf (two calls, both results read after the second)'},
- 'rule': 'cases = corpus + held pairs of PathsOf results over ascending sizes (run first) + key lists of 1025..4100 keys in compact form (alphabet + runs; runs of equal keys straddling / ending at / starting at the multiples of 256, 512, 1024, 2048; both dedup flags; held pairs) + every from in [MaxInt32-40, MaxInt32] x every w in 0..32 with tobit = int32(from+w) wrapping (FromStr32, PathOf, PathStr, fields, PathsOf) + exhaustive (all strings of length 0..2 (thorough 0..3) over {00,80,ff,01,a5} x all from in '
+ 'rule': 'cases = corpus + held pairs of PathsOf results over ascending sizes (run first) + key lists of 1025..6000 keys in compact form (the biggest are re-run under GOMAXPROCS 3/33/97 by main.go) (alphabet + runs; runs of equal keys straddling / ending at / starting at the multiples of 256, 512, 1024, 2048; both dedup flags; held pairs) + every from in [MaxInt32-40, MaxInt32] x every w in 0..32 with tobit = int32(from+w) wrapping (FromStr32, PathOf, PathStr, fields, PathsOf) + sessions PathsOf(dedup) / PathsOf / append junk to the first result / read both (PathsOf/append) + FromStr32 on a 40 MB string around bit 2^28-8 and at its end (FromStr32/big: model run on the bytes under the window, justified by C11_FromStr32_local) + exhaustive (all strings of length 0..2 (thorough 0..3) over {00,80,ff,01,a5} x all from in '
          '[0, 8*len+9] and 56 x all widths 0..32; all strings of length 5 x unaligned starts x width 32 (five-byte windows; thorough: from 0..8 x widths 24..32 and all strings of length 4 x all from x all widths)) + sampled strings of length 3..6 over the same alphabet (all from <= 56, '
          'boundary widths) + random strings of length 0..40 over the shared byte alphabets with starts before / at / after '
          'the end of the string, aligned and unaligned, widths aimed at byte-span boundaries and at the end of the string '
